@@ -190,7 +190,7 @@ def geom(draw, p):
   return g
 
 
-CLASSES = ['free_root', 'fixed_root', 'slide_on_rotated', 'stack', 'anchor', 'actuated', 'plain']
+CLASSES = ['free_root', 'fixed_root', 'slide_on_rotated', 'stack', 'anchor', 'actuated', 'plain', 'fixed_then_free']
 
 
 def enumerate_forests(max_n, min_n=1):
@@ -233,6 +233,11 @@ def model_spec(draw, p=None, cls=None, shape=None):
         parents.append(draw(st.integers(0, i - 1)))
       else:
         parents.append(-1)
+  if cls == 'fixed_then_free' and shape is None:
+    # an actuated world-attached tree followed by a free body: q and qd addresses diverge after the free joint
+    if nb < 2:
+      nb, parents = 2, [-1, -1]
+    parents[-1] = -1
   order, remap = [], {}
   children = {i: [] for i in range(-1, nb)}
   for i, pa in enumerate(parents):
@@ -258,6 +263,8 @@ def model_spec(draw, p=None, cls=None, shape=None):
         free = True
       elif cls == 'fixed_root' and new_i == 0:
         free = False
+      elif cls == 'fixed_then_free':
+        free = new_i != 0
       else:
         free = draw(st.booleans())
     else:
@@ -283,7 +290,7 @@ def model_spec(draw, p=None, cls=None, shape=None):
   acts = []
   if p['actuators'] != 'none':
     slots = [(bi, ji) for bi, b in enumerate(bodies) for ji in range(len(b['joints']))]
-    want = cls == 'actuated' or draw(st.integers(0, 2)) == 0
+    want = cls in ('actuated', 'fixed_then_free') or draw(st.integers(0, 2)) == 0
     if slots and want:
       n_act = draw(st.integers(1, 10 if cls == 'actuated' else 4))
       for _ in range(n_act):
